@@ -17,7 +17,8 @@ TRUSTED = [
     "coq/Value/Bincode.v (C16's model of bincode 2 standard()) for the byte codecs; crc32 of Wal/Codec.v; both compared with the real "
     "functions (bincode, crc32fast) on every record, payload and snapshot of the run",
     "file system: a file is a byte string of which a prefix containing the fsynced bytes survives a crash; rename is atomic "
-    "(the harness produces crash images by cutting copies of the files; no real power loss)",
+    "(the harness produces crash images by cutting copies of the files; no real power loss); fsync calls are observed by defining "
+    "`fsync` in the harness binary itself (every File::sync_all of the linked crates lands there), sync_data is not used by the WAL",
     "harness/src/bin/c05.rs (generators, printing of observations as Coq terms, the oracles on the implementation's answers), checks/c05.py, lib/gv.py",
 ]
 
@@ -32,7 +33,8 @@ def _eval_by_size(name, requires, exprs, shard=None, budget=140000):
     tables (some are 50 kB, some 200 bytes), so shards are cut by total size instead of by count."""
     if not exprs:
         return []
-    d = os.path.join(gv.BUILD, "cases", name)
+    tag = getattr(gv, "OUT_TAG", "")
+    d = os.path.join(gv.BUILD, "cases", (tag + "_" if tag else "") + name)
     gv.shutil.rmtree(d, ignore_errors=True)
     os.makedirs(d)
     jobs, cur, size = [], [], 0
